@@ -69,7 +69,17 @@ def tricky_schemas(rng, n):
             s = {"type": "object", "properties": {"a": rng.choice(ok)}, "additionalProperties": u}
         else:
             s = {"type": "object", "properties": {"a": {"anyOf": [u, rng.choice(unsat)]}, "b": rng.choice(ok)}, "required": ["b"], "additionalProperties": False}
+        if rng.random() < 0.35:
+            # the same piece reached through a bare $ref (definitions are compiled after their users)
+            s = json.loads(json.dumps(s).replace(json.dumps(u), '{"$ref": "#/$defs/never"}', 1))
+            s["$defs"] = {"never": u}
         out.append(s)
+    for u in (False, {"type": "integer", "minimum": 3, "maximum": 2}, {"type": "string", "minLength": 4, "maxLength": 2}):
+        r = {"$ref": "#/$defs/never"}
+        out.append({"type": "object", "properties": {"a": r, "b": {"type": "null"}}, "required": ["b"], "additionalProperties": False, "$defs": {"never": u}})
+        out.append({"type": "array", "prefixItems": [{"const": 1}, r], "items": False, "$defs": {"never": u}})
+        out.append({"type": "object", "properties": {"a": r}, "required": ["a"], "additionalProperties": False, "$defs": {"never": u}})
+        out.append({"anyOf": [r, {"type": "null"}], "$defs": {"never": u}})
     # pattern properties whose key language is used up by declared properties
     for pat, names in [("^a$", ["a"]), ("^(a|b)$", ["a", "b"]), ("^a", ["a"]), ("^[ab]$", ["a"])]:
         out.append({"type": "object", "properties": {n: {"type": "integer", "minimum": 0, "maximum": 9} for n in names},
